@@ -1303,7 +1303,10 @@ impl<'a> ApplicableAttr<'a> {
                         quote_action(action, Some(&field_path(ident)), ctx)
                     },
                 (Some(ident), None) => {
-                    let field_path = field_path(ident);
+                    let field_path = match ident {
+                        Unnamed(index) if ctx.impl_type.is_variant() => field_path(&Named(format_ident!("f{}", index.index))),
+                        _ => field_path(ident)
+                    };
                     quote!(#obj #field_path)
                 }
                 (None, Some(action)) => quote_action(action, Some(&field_path(or())), ctx),
